@@ -124,7 +124,7 @@ func init() {
 		storageTraces := c.Cov["traces_validated_against_impl"]
 		// cluster level: client iterator and raw DM.SCAN on stable clusters and on a partition
 		// that has two primary owners
-		c.Cov["rule"] = c.Cov["rule"].(string) + "; cluster level: BFS over put/delete/compact histories on 1-3 members (R 1-2, 128-byte tables) and an explicit grid of (keys written before a join) x (keys written after it) x balancer passes on the partition that moves to the joiner; in every state the client iterator (must yield each present matching key exactly once and terminate) and raw DM.SCAN cursor loops per partition and owner (at least once, nothing absent) run for COUNT in {1,2,default} x MATCH in {none,^a,^zz}"
+		c.Cov["rule"] = c.Cov["rule"].(string) + "; cluster level: BFS over put/delete/compact histories on 1-3 members (R 1-2, 128-byte tables) and an explicit grid of (keys written before a join) x (keys written after it) x balancer passes on the partition that moves to the joiner; in every state the client iterator (must yield each present matching key exactly once and terminate) and raw DM.SCAN cursor loops per partition and owner (at least once, nothing absent) run for COUNT in {1,2,default} x MATCH in {none,^a,^zz}; the BFS also contains, for every plain operation and every position 0-2, a client iteration (COUNT=1) during which that operation lands after that many yielded keys: keys present before and after must be yielded exactly once, never-present keys not at all"
 		c12Cluster(c)
 		c.Cov["traces_validated_against_impl"] = storageTraces
 	}})
